@@ -1,4 +1,5 @@
 import HexVerif.Lemmas.AsmEncode
+import HexVerif.Lemmas.AsmLiteral
 /-
   C04 — the assembler's prefix encoding reconstructs every 32-bit operand exactly.
   Model: `Asm.instrLen`/`Asm.encode` (hexasm.hpp `numNibbles`, `instrLen`, `emitProgramBin`);
@@ -53,6 +54,17 @@ theorem C04_literal_pos (n : Nat) : BitVec.ofInt 32 (wrap32 (n : Int)) = BitVec.
   apply BitVec.eq_of_toNat_eq
   simp only [wrap32, BitVec.toNat_ofInt, BitVec.toNat_ofNat]
   omega
+
+/-- **C04, literals.** Written as an unsigned decimal `n < 2^32`, or as `-n`, the operand the
+    parser hands to the encoder denotes `n`, respectively `-n`, modulo 2^32: the lexer's
+    `(unsigned) strtoul` returns `n` for the decimal spelling of `n`, and `parseInteger` converts
+    with wrap-around. Together with `C04` the emitted bytes deliver exactly that value. -/
+theorem C04_literal (n : Nat) (h : n < 2 ^ 32) :
+    strtoul32 (decimalBytes n) = n ∧
+    BitVec.ofInt 32 (wrap32 ((strtoul32 (decimalBytes n) : Nat) : Int)) = BitVec.ofNat 32 n ∧
+    BitVec.ofInt 32 (wrap32 (-((strtoul32 (decimalBytes n) : Nat) : Int))) = - BitVec.ofNat 32 n := by
+  rw [strtoul32_decimal n h]
+  exact ⟨rfl, C04_literal_pos n, C04_literal_neg n⟩
 
 /-- Non-vacuity / regression examples, including the value the pinned tree got wrong. -/
 example : encode 3 (-2147483648) (instrLen (-2147483648)) = [0xF8, 0xE0, 0xE0, 0xE0, 0xE0, 0xE0, 0xE0, 0x30] := by
